@@ -247,8 +247,19 @@ func cpuLimitMicros(inLen int) int64 {
 	return base
 }
 
-// allocLimit is the allocation bound of one call.
-func allocLimit(inLen int) uint64 { return 64<<20 + 2000*uint64(inLen) }
+// allocLimit is the allocation bound of one run of a target: calls x (64 MiB + perByte x len(input)).
+// calls = number of decoder invocations the target's run function makes per input (default 1),
+// perByte = 2000 unless the target documents a larger linear cost (SQL grammar targets: 8000, see notes).
+func (t *target) allocLimit(inLen int) uint64 {
+	calls, per := uint64(1), uint64(2000)
+	if t.calls > 0 {
+		calls = uint64(t.calls)
+	}
+	if t.allocPerByte > 0 {
+		per = uint64(t.allocPerByte)
+	}
+	return calls * (64<<20 + per*uint64(inLen))
+}
 
 type callResult struct {
 	err   error
@@ -279,6 +290,7 @@ func runOne(t *target, in []byte) (res callResult) {
 
 var (
 	curStartCPU int64 // CPU micros at the start of the running call, 0 when idle
+	curStartAlloc uint64
 	curIdx      int64
 	curLimit    int64
 )
@@ -358,7 +370,7 @@ func Child(args []string) int {
 				buf := make([]byte, 1<<16)
 				n := runtime.Stack(buf, true)
 				fmt.Fprintf(os.Stderr, "C14-CPU-LIMIT idx=%d used_us=%d\n%s\n", idx, used, buf[:n])
-				fmt.Fprintf(jf, "T %d %d\n", idx, used)
+				fmt.Fprintf(jf, "T %d %d %d\n", idx, used, heapAllocs()-atomic.LoadUint64(&curStartAlloc))
 				os.Exit(3)
 			}
 		}
@@ -381,6 +393,7 @@ func Child(args []string) int {
 		if st == 0 {
 			st = 1
 		}
+		atomic.StoreUint64(&curStartAlloc, heapAllocs())
 		atomic.StoreInt64(&curStartCPU, st)
 		res := runOne(t, ins[i].data)
 		atomic.StoreInt64(&curStartCPU, 0)
@@ -411,7 +424,7 @@ func Child(args []string) int {
 		}
 		line = append(line, '\n')
 		jf.Write(line)
-		if res.alloc > allocLimit(len(ins[i].data)) && res.pan == nil {
+		if res.alloc > t.allocLimit(len(ins[i].data)) && res.pan == nil {
 			// repeat the call once between two memory-profile snapshots: confirms the measurement and names the site
 			alloc2, site := attributeAlloc(t, ins[i].data)
 			fmt.Fprintf(jf, "A %d %d %s\n", i, alloc2, site)
